@@ -81,4 +81,12 @@ theorem text_extractClaims_ok : Oidc.Shapes.Text_extractClaims := by unfold Oidc
 theorem text_TraefikOidc_cacheVerifiedToken_ok : Oidc.Shapes.Text_TraefikOidc_cacheVerifiedToken := by unfold Oidc.Shapes.Text_TraefikOidc_cacheVerifiedToken; rfl
 theorem text_New_ok : Oidc.Shapes.Text_New := by unfold Oidc.Shapes.Text_New; rfl
 
+/-! the token cache and the revocation list are instances of cache.go: its methods read as when `Oidc.Cache` was written -/
+theorem text_Cache_Set_ok : Oidc.Shapes.Text_Cache_Set := by unfold Oidc.Shapes.Text_Cache_Set; rfl
+theorem text_Cache_Get_ok : Oidc.Shapes.Text_Cache_Get := by unfold Oidc.Shapes.Text_Cache_Get; rfl
+theorem text_Cache_Delete_ok : Oidc.Shapes.Text_Cache_Delete := by unfold Oidc.Shapes.Text_Cache_Delete; rfl
+theorem text_Cache_Cleanup_ok : Oidc.Shapes.Text_Cache_Cleanup := by unfold Oidc.Shapes.Text_Cache_Cleanup; rfl
+theorem text_Cache_evictOldest_ok : Oidc.Shapes.Text_Cache_evictOldest := by unfold Oidc.Shapes.Text_Cache_evictOldest; rfl
+theorem text_Cache_removeItem_ok : Oidc.Shapes.Text_Cache_removeItem := by unfold Oidc.Shapes.Text_Cache_removeItem; rfl
+
 end Oidc.Props.C14
